@@ -7,8 +7,9 @@
    (the dependency set is exactly the set of distinct other classes named as base, in annotations,
    or instantiated -- imported or same-file -- in any position, built-ins excluded).
    It is FALSE of the current code for classes referenced through their module (pkg.X):
-   C13_qualified_refuted.  Proved: C13_exact_partial for classes without module-qualified
-   references, in every position and for every other import form.  Before the fix: commits of this
+   C13_qualified_refuted, and for a generic written on a side of a union (List[X] | None):
+   C13_generic_in_union_refuted.  Proved: C13_exact_partial for classes without those two forms,
+   in every position and for every other import form.  Before the fix: commits of this
    round it was also false for instantiations under else/except/finally/conditions/operands/...
    (F15), for `from m import X` (F14), for self-references (F10) and for the sub-expressions
    ast_builder.go dropped (F13); those are now theorems (C13_positions_all_visited,
@@ -26,9 +27,15 @@ Theorem C13_positions_all_visited : forall p, is_store_target p = false ->
 Proof. exact expr_positions_reached. Qed.
 
 (* model = spec, all positions, all import forms except module-qualified references *)
-Theorem C13_exact_partial : forall f c, plain_class c -> inst_positions_ok c ->
+Theorem C13_exact_partial : forall f c, plain_class c -> unions_flat_class c -> inst_positions_ok c ->
   cbo_deps default_options f c = cbo_spec f c.
 Proof. exact cbo_exact_partial. Qed.
+
+(* List[X] | None: the type arguments of a generic on a side of a union are not counted *)
+Theorem C13_generic_in_union_refuted :
+  cbo_deps default_options (File [ImpFrom (nm "X")] [nm "K"]) w_union = [] /\
+  cbo_spec (File [ImpFrom (nm "X")] [nm "K"]) w_union = [Plain (nm "X")].
+Proof. exact cbo_generic_in_union_refuted. Qed.
 
 Theorem C13_qualified_refuted :
   cbo_deps default_options w_file w_base = [] /\ cbo_spec w_file w_base = [Qual (nm "pkg") (nm "Base")] /\
@@ -107,6 +114,7 @@ Proof. exact default_thresholds. Qed.
 Print Assumptions C13_positions_all_visited.
 Print Assumptions C13_exact_partial.
 Print Assumptions C13_qualified_refuted.
+Print Assumptions C13_generic_in_union_refuted.
 Print Assumptions C13_count_distinct_not_self.
 Print Assumptions C13_perm_invariant.
 Print Assumptions C13_repeat_member.
